@@ -474,7 +474,7 @@ func C08(c *Ctx) {
 		"(A2) in the purchase handler every state-changing step is guarded by the owner predicate (C13), by not(limit+number > params.MaxStorageLimit) and by the wrap check not(limit+number < limit), where limit is the stored limit of the registration named in the message; the stored new limit is exactly that checked sum, under the key of that id; " +
 		"(A9, sink-scoped) every uint64 +/- on message/state/param values in the functions reachable from the record and purchase handlers and the storage query is range-guarded by a dominating comparison (or is a ±1 counter step whose decrement is guarded by count > limit); " +
 		"(A3) in the record step the record write is followed by count+1, and a prune (delete) is always paired with count-1 and an update of the lowest/first marker, the decrement never occurring without a delete; (A7) the storage query reports the keeper's saturating remaining-capacity value. 'Exactly the newest min(total, limit) records' is inductive and not decided."
-	r.Rules = []string{"A1.limit-writers", "A2.purchase-guards", "A7.new-limit", "A9.uint64-range", "A3.prune-pairing", "A11.iter-end-bound", "A7.max-purchasable", "A3.lost-update"}
+	r.Rules = []string{"A1.limit-writers", "A2.purchase-guards", "A7.new-limit", "A9.uint64-range", "A3.prune-pairing", "A11.iter-end-bound", "A7.max-purchasable", "A3.lost-update", "A3.stale-element-pointer"}
 	lostUpdateControl(c)
 	r.Floor("functions of wrkchain scanned for dropped updates to record copies", lostUpdates(c, "wrkchain"), 20)
 	r.Floor("functions of beacon scanned for dropped updates to record copies", lostUpdates(c, "beacon"), 20)
